@@ -881,7 +881,74 @@ fn oracle(args: &[String]) {
         }
     }
 
-    for t in [&t1, &t2, &t3, &t4] {
+    // (v) a RANGED user feature on a font with `feat`: the feature's subtable acts on exactly the glyphs
+    // whose cluster lies in [start, end) (hb_aat_map range flags), for a non-contextual subtable and for a
+    // one-state contextual subtable that substitutes the current glyph
+    let mut t5 = Tally { name: "ranged-noncontextual", runs: 0, changed: 0, fails: 0 };
+    let mut t6 = Tally { name: "ranged-contextual", runs: 0, changed: 0, fails: 0 };
+    for k in 0..n {
+        let ng = 24u16;
+        let lookup = AatLookup::new(*r.pick(&[0u8, 2, 6, 8]), (1..=8u16).map(|g| (g, g + 10)).collect());
+        let ctx = k % 2 == 1;
+        let kind = if ctx {
+            MorxKind::Contextual {
+                table: StateTable {
+                    n_classes: 5,
+                    class_lookup: AatLookup::new(2, (1..=8u16).map(|g| (g, 4)).collect()),
+                    states: vec![vec![0, 0, 0, 0, 1], vec![0, 0, 0, 0, 1]],
+                    entries: vec![
+                        CtxEntry { new_state: 0, flags: 0, mark_index: 0xFFFF, current_index: 0xFFFF },
+                        CtxEntry { new_state: 0, flags: 0, mark_index: 0xFFFF, current_index: 0 },
+                    ],
+                },
+                substitutions: vec![lookup],
+            }
+        } else {
+            MorxKind::NonContextual(lookup)
+        };
+        // optionally a preceding always-on in-place subtable that does nothing (leaves buffer.idx at the end)
+        let noop = MorxSubtable {
+            coverage: 0,
+            sub_feature_flags: 4,
+            kind: MorxKind::Rearrangement(StateTable {
+                n_classes: 5,
+                class_lookup: AatLookup::new(6, vec![(1, 4)]),
+                states: vec![vec![0, 0, 0, 0, 0], vec![0, 0, 0, 0, 0]],
+                entries: vec![RearrEntry { new_state: 0, flags: 0 }],
+            }),
+        };
+        let with_noop = r.chance(1, 2);
+        let mut subtables = vec![];
+        if with_noop {
+            subtables.push(noop);
+        }
+        subtables.push(MorxSubtable { coverage: 0, sub_feature_flags: 1, kind });
+        let mut spec = morx_font(
+            ng,
+            vec![MorxChain {
+                default_flags: 4,
+                features: vec![MorxFeature { feature_type: 37, feature_setting: 1, enable_flags: 1, disable_flags: 0xFFFF_FFFF }],
+                subtables,
+            }],
+        );
+        spec.feat = Some(Feat { names: vec![FeatName { feature: 37, settings: vec![0, 1], exclusive: true, default_index: None }] });
+        let alphabet: Vec<u16> = (1..=8).collect();
+        for _ in 0..4 {
+            let mut text = rand_text(&mut r, &alphabet, 9);
+            if text.is_empty() {
+                text.push(1);
+            }
+            let a = r.below(text.len() as u64 + 1) as u32;
+            let b = a + r.below(text.len() as u64 + 2 - a as u64) as u32;
+            let mut req = req_of(&text, Direction::LeftToRight, r.below(3) as u8);
+            req.features = vec![format!("smcp[{}:{}]", a, b)];
+            let want: Vec<u32> = text.iter().enumerate().map(|(i, g)| if (i as u32) >= a && (i as u32) < b { *g as u32 + 10 } else { *g as u32 }).collect();
+            let cl: Vec<u32> = (0..text.len() as u32).collect();
+            report(if ctx { &mut t6 } else { &mut t5 }, &spec, &req, &want, Some(&cl));
+        }
+    }
+
+    for t in [&t1, &t2, &t3, &t4, &t5, &t6] {
         println!("oracle-summary {} runs={} changed={} fails={}", t.name, t.runs, t.changed, t.fails);
     }
 }
